@@ -116,12 +116,9 @@ def build_c06(rng, g, a, b):
             r1, r2 = res[cs[op].cid][1], res[cs[op + 's'].cid][1]
             ex = exact.get(cs[op].cid) and exact.get(cs[op + 's'].cid)
             if ex:
-                if fmt.canon_mp(r1) != fmt.canon_mp(r2):
-                    # ring sets must agree after normalising start and order
-                    rs1 = sorted(fmt.canon_ring(r) for p in r1 for r in p)
-                    rs2 = sorted(fmt.canon_ring(r) for p in r2 for r in p)
-                    if rs1 != rs2:
-                        direct.append('%s(A,B) and %s(B,A) have different ring sets' % (op, op))
+                # the boundaries, not the rings (see boundary_canon): how a boundary is cut into rings is not part of the property
+                if fmt.canon_mp(r1) != fmt.canon_mp(r2) and boundary_canon(r1) != boundary_canon(r2):
+                    direct.append('%s(A,B) and %s(B,A) have different boundaries' % (op, op))
             its.append(relcheck.Item('%s_c%s' % (g.gid, op), [('Y', r1), ('Y', r2)], Eq(In(0), In(1)), 64, inp, not ex,
                                      'commutativity of %s' % op, [cs[op], cs[op + 's']]))
         aa = ('E', fmt.rings_of_operand(a))
